@@ -241,7 +241,7 @@ func c03() []*Ob {
 				if fn := c.Fn("(*frac.DiskBlocksWriter).writeIDsBlocks"); fn != nil {
 					var push *ssa.Function
 					for _, a := range fn.AnonFuncs {
-						if len(CallsIn(a, Callee("(*frac.DiskIDsBlock).packMIDs"))) > 0 {
+						if Current.HasCall(a, Callee("(*frac.DiskIDsBlock).packMIDs")) {
 							push = a
 						}
 					}
@@ -349,7 +349,7 @@ func c03() []*Ob {
 						case *ssa.MakeClosure:
 							if cf, ok := x.Fn.(*ssa.Function); ok {
 								for _, l := range loaders {
-									if len(CallsIn(cf, Callee(l))) > 0 {
+									if Current.HasCall(cf, Callee(l)) {
 										okL = true
 									}
 									if l == "preloaded" && FuncName(fn) == "frac.NewSealedPreloaded" {
@@ -424,7 +424,7 @@ func c03() []*Ob {
 						continue
 					}
 					for _, f := range fields {
-						if len(InstrsIn(fn, FieldStore("frac.Sealed", f))) > 0 {
+						if Current.Has(fn, FieldStore("frac.Sealed", f)) {
 							c.Site(fn.Pos(), "%s assigns Sealed.%s", name, f)
 						} else {
 							c.Violation("fields:"+name+":"+f, fn.Pos(), "%s does not assign Sealed.%s, which the other construction path assigns: a preloaded and a reloaded fraction would answer from different tables", name, f)
@@ -492,7 +492,7 @@ func c03() []*Ob {
 					if fn == nil {
 						continue
 					}
-					if len(CallsInAll(fn, Callee("(*frac/lids.Table).GetAdjustedMinTID"))) > 0 {
+					if Current.HasCall(fn, Callee("(*frac/lids.Table).GetAdjustedMinTID")) {
 						c.Site(fn.Pos(), "%s uses GetAdjustedMinTID", name)
 					} else {
 						c.Violation("own:lids.Table:accessor:"+name, fn.Pos(), "%s no longer goes through GetAdjustedMinTID", name)
